@@ -174,6 +174,84 @@ theorem history_never_empty (m : Matrix α) (h : m.Inv) (ops : List (Op α)) :
   let ⟨hi, _, _⟩ := history_refines m h ops
   ⟨hi.2.1, hi.2.2, hi.1⟩
 
+/-! ### user closures / iterators that panic part way -/
+
+/-- **User code panicking on its `k`-th call** (`map_mut`, `map_mut_with_index`, `map`,
+    `map_with_index` closures; the `next` of the iterator handed to `insert_row_with` /
+    `insert_column_with`), for every `k`, on every matrix satisfying the invariant: the matrix
+    the caller is left with still satisfies the invariant (size and storage agree, at least 1×1)
+    and abstracts to the documented state — for the in-place maps the cells visited before the
+    panic (row-major) are mapped and the others untouched, in every other case the matrix is
+    unmodified — and the operation panics exactly when the user code is reached at its `k`-th
+    call (or a documented precondition fails). -/
+theorem xstep_refines (m : Matrix α) (h : m.Inv) (x : XOp α) :
+    (m.xexec x).state.Inv ∧ abs (m.xexec x).state = Rows.xnext (abs m) x ∧
+      (m.xexec x).panic.isSome = Rows.xpanics (abs m) x :=
+  xexec_spec m h x
+
+/-- A panic raised by the iterator's `next` or by the closure of an allocating map leaves the
+    matrix exactly as it was (the in-place maps are the only operations that may keep a partial
+    effect, and only on element values). -/
+theorem xpanic_frame (m : Matrix α) (h : m.Inv) (x : XOp α)
+    (hx : (∀ f k, x ≠ .mapMutPanic f k) ∧ (∀ g k, x ≠ .mapMutWithIndexPanic g k))
+    (hp : (m.xexec x).panic ≠ none) : (m.xexec x).state = m := by
+  cases x with
+  | op o => exact panic_frame m h o hp
+  | mapMutPanic f k => exact absurd rfl (hx.1 f k)
+  | mapMutWithIndexPanic f k => exact absurd rfl (hx.2 f k)
+  | mapPanic f k =>
+    simp only [xexec, mapPanic] at hp ⊢
+    split
+    · rfl
+    · rename_i hk
+      rw [if_neg hk] at hp
+      exact panic_frame m h (.map f) hp
+  | mapWithIndexPanic f k =>
+    simp only [xexec, mapWithIndexPanic] at hp ⊢
+    split
+    · rfl
+    · rename_i hk
+      rw [if_neg hk] at hp
+      exact panic_frame m h (.mapWithIndex f) hp
+  | insertRowWithPanic row values k =>
+    simp only [xexec, insertRowWithPanic] at hp ⊢
+    split
+    · split
+      · rfl
+      · rename_i hr hk
+        rw [if_pos hr, if_neg hk] at hp
+        exact panic_frame m h (.insertRowWith row values) hp
+    · rfl
+  | insertColumnWithPanic column values k =>
+    simp only [xexec, insertColumnWithPanic] at hp ⊢
+    split
+    · split
+      · rfl
+      · rename_i hr hk
+        rw [if_pos hr, if_neg hk] at hp
+        exact panic_frame m h (.insertColumnWith column values) hp
+    · rfl
+
+/-- The in-place maps never change the size, whether or not their closure panics. -/
+theorem inplace_map_keeps_size (m : Matrix α) (f : α → α) (g : α → Nat → Nat → α) (k : Nat) :
+    (m.mapMutPanic f k).state.size = m.size ∧ (m.mapMutWithIndexPanic g k).state.size = m.size :=
+  ⟨rfl, rfl⟩
+
+/-- **Every finite history over the extended alphabet** (ordinary operations with any arguments
+    and user code panicking at any call): invariant, refinement of the list-of-rows history, and
+    identical panic traces. -/
+theorem xhistory_refines (m : Matrix α) (h : m.Inv) (xs : List (XOp α)) :
+    (m.xrun xs).Inv ∧ abs (m.xrun xs) = Rows.xrun (abs m) xs ∧
+      m.xrunTrace xs = Rows.xrunTrace (abs m) xs := by
+  induction xs generalizing m with
+  | nil => exact ⟨h, rfl, rfl⟩
+  | cons x xs ih =>
+    obtain ⟨h1, h2, h3⟩ := xexec_spec m h x
+    obtain ⟨i1, i2, i3⟩ := ih (m.xexec x).state h1
+    simp only [Matrix.xrun, Matrix.xrunTrace, Rows.xrun, Rows.xrunTrace]
+    rw [← h2, ← h3]
+    exact ⟨i1, i2, by rw [i3]⟩
+
 /-! ### constructors establish the invariant -/
 
 /-- `Matrix::from(Vec<Vec<T>>)` accepts exactly the rectangular, at least 1×1 lists of rows … -/
@@ -314,6 +392,14 @@ example :
       [.insertRowWith 1 [7, 8], .removeColumn 5, .insertColumnWith 0 [7, 8, 9],
        .retainMut (.not (.single 0)) .all, .transposeMut, .set 0 0 99, .removeRow 3] =
       [true, true, false, false, false, false, false] := by
+  decide
+
+/-- a closure panicking on its call number 4 on a 2×3 matrix: four cells mapped, size kept -/
+example : ((⟨[1, 2, 3, 4, 5, 6], 2, 3⟩ : Matrix Nat).xexec (.mapMutPanic (· + 10) 4)) =
+      ⟨⟨[11, 12, 13, 14, 5, 6], 2, 3⟩, some .explicit⟩ ∧
+    Rows.xnext [[1, 2, 3], [4, 5, 6]] (.mapMutPanic (· + 10) 4 : XOp Nat) = [[11, 12, 13], [14, 5, 6]] ∧
+    ((⟨[1, 2, 3, 4, 5, 6], 2, 3⟩ : Matrix Nat).xexec (.insertColumnWithPanic 0 [7, 8] 1)) =
+      ⟨⟨[1, 2, 3, 4, 5, 6], 2, 3⟩, some .explicit⟩ := by
   decide
 
 /-- constructors: an accepted and a rejected argument for each clause of `constructors_inv` -/
